@@ -626,11 +626,13 @@ def r2_7(ctx):
         elif not mp and lm:
             # promote_pawn: parameters (start, target)
             pts = [i for i in range(1, b.arg_count + 1) if b.local_ty(i) == "board::Point"]
+            n += 1
+            v = strip_refs(lm[0][1][2])
+            ok = len(pts) == 2 and v[0] == "agg" and v[2] == "Some" and strip_refs(v[3][0][3][0]) == ("arg", pts[0]) and strip_refs(v[3][0][3][1]) == ("arg", pts[1])
+            ctx.ob("%s:last_move=(start,target)" % site.name, ok, b.where(lm[0][0]),
+                   "promotion successor names (start, target) as handed in by the caller%s" % (
+                       "" if ok else ": NOT so - the origin square of a promotion cannot be derived from the target (a capturing pawn arrives from the neighbouring file), it has to be the caller's from-square: `%s`" % show_expr(v, b)[:80]))
             if len(pts) == 2:
-                n += 1
-                v = strip_refs(lm[0][1][2])
-                ok = v[0] == "agg" and v[2] == "Some" and strip_refs(v[3][0][3][0]) == ("arg", pts[0]) and strip_refs(v[3][0][3][1]) == ("arg", pts[1])
-                ctx.ob("%s:last_move=(start,target)" % site.name, ok, b.where(lm[0][0]), "promotion successor names (start, target)")
                 wr = [(loc, ev) for loc, evs in site.events.items() for ev in evs if ev[0] == "write" and ev[1][0] == "board"]
                 for loc, ev in wr:
                     st = b.stmts(loc[0])[loc[1]]
